@@ -308,6 +308,13 @@ def kinds_nonlogical(pm: ProgramModel, ctx: Ctx, mb: ModelBuilder, methods: dict
             ctx.check(not (isinstance(v, tuple) and v and v[0] in ("raise", "mutation")), "C18-TOTAL",
                       f"{nme}:nonlogical:{text}", loc(methods[nme].unit.path, methods[nme].node),
                       f"{nme} does not raise on `{text}`", bad=f"{nme}(`{text}`): {v!r}")
+    # features named inside aggregate functions
+    for text, want in (("sum(c) > 5", []), ("avg(c, F) <= 5", ["F"]), ("len(S) != 0", ["S"])):
+        v = ev(methods["get_features"], [mb.constraint("k", samples[text])])
+        ctx.check(isinstance(v, list) and sorted(v) == want, "C18-NAMES", f"get_features:{text}",
+                  loc(methods["get_features"].unit.path, methods["get_features"].node),
+                  f"get_features(`{text}`) is {want}: the feature operand of an aggregate counts, the attribute "
+                  f"operand of sum/avg does not", bad=f"get_features(`{text}`) gives {v!r}, expected {want}")
     # numbers and quoted strings are not features
     c = mb.constraint("k", samples["A == 'x'"])
     v = ev(methods["get_features"], [c])
